@@ -129,13 +129,15 @@ Inv_Core ==
             /\ RangeOf(d) \subseteq Admissible(case)
             \* "the nmaxi closest when there is a single sector"
             /\ SingleSectorRule(case)
-\* ball-tree pre-selection: with the isotropic metric (Euclidean order = rank order), a single
-\* sector and nmaxi not exceeding the number of samples, the side condition of the property is
-\* sufficient for the transcription of the ball path to yield the definition.  (Beyond these
-\* conditions it is not: see BallCause; the real library is compared in all cases where the side
-\* condition holds and the deviations are gstlearn defects recorded in known/C06.json.)
+\* ball-tree pre-selection: with the isotropic metric (Euclidean order = rank order) and a single
+\* sector, when the pre-selection holds no sample excluded by the cross-validation or holds every
+\* sample, the side condition of the property is sufficient for the transcription of the ball path
+\* to yield the definition.  (Beyond these conditions it is not: see BallCause; the real library
+\* is compared in all cases where the side condition holds and the deviations are gstlearn
+\* defects recorded in known/C06.json.)
 Inv_BallSufficient ==
-  IsCase /\ case.nsect = 1 /\ case.nmaxi <= NCand(case) /\ BallSide(case, RankKeys(case))
+  IsCase /\ case.nsect = 1 /\ BallSide(case, RankKeys(case))
+         /\ (case.nmaxi >= NCand(case) \/ ~BallHoldsExcluded(case, RankKeys(case)))
     => BallAlgorithm(case, RankKeys(case)) = Definition(case)
 
 -----------------------------------------------------------------------------
@@ -153,7 +155,8 @@ BallInfo(c, m, def) ==
   ELSE LET e == EucKeys(c, m) IN
        IF ~BallSide(c, e) \/ ~EucDistinct(c, e) THEN [side |-> FALSE]
        ELSE LET model == BallAlgorithm(c, e)
-            IN [side |-> TRUE, cause |-> BallCause(c, e, model, def), model |-> model]
+            IN [side |-> TRUE, cause |-> BallCause(c, e, model, def), model |-> model,
+                xin |-> BallHoldsExcluded(c, e)]
 
 Out(c) == LET def == Definition(c) IN
           [ c |-> [i \in Idx(c) |-> LET x == c.cands[i] IN
